@@ -827,6 +827,11 @@ class HfProtocol(utils.EventEmitter):
         """
         try:
             async with self.command_lock:
+                # Drop result codes left over from a previous command (a peer that
+                # sent more than one final result code), so that they are not taken
+                # for the answer to this one.
+                while not self.response_queue.empty():
+                    self.response_queue.get_nowait()
                 self.pending_command = cmd
                 logger.debug(f">>> {cmd}")
                 self.dlc.write(cmd + '\r')
